@@ -5,7 +5,7 @@
    finding F-CPP-ZEROS, status fixed): it cleared ceil(length/8) bytes from offset/8 and restored only the low bits of the first
    byte, so (a) a range that crosses a byte boundary from a non-zero bit offset was under-zeroed and (b) bits after the end of
    the range inside the last touched byte were cleared as well. *)
-From Verif Require Import Bits CPrims CppPrims.
+From Verif Require Import Bits CPrims CPrimsThm CppPrims CppPrimsThm CppPrimsMoreThm.
 Open Scope N_scope.
 
 Definition setZeros_old (s : span) (length : N) : option (bytes + err) :=
@@ -48,3 +48,27 @@ Proof. exists (mkspan [255] 1 0), 1, [0], 1. vm_compute. repeat split; discrimin
 Example setZeros_now_on_the_witnesses :
   setZeros (mkspan [255; 255] 2 7) 2 = Some (inl [127; 254]) /\ setZeros (mkspan [255] 1 0) 1 = Some (inl [254]).
 Proof. vm_compute. split; reflexivity. Qed.
+
+(* any_bitspan::subspan(bits) / subspan_bytes(n) before the fix commit 939fc9d ("subspan never forms a pointer beyond one past
+   the end of the data"): pointer + offset_bytes without a clamp.  This is the text modelled by CppPrims.subspan /
+   CppPrims.subspan_bytes (still in that file because Codec/CppWalkerInst.v unfolds it); the statement that used to be the second
+   conjunct of C14_cpp_pad_and_subspans.  The current source is PrimsExt.subspan_clamped (theorem subspan_clamped_spec). *)
+Theorem subspan_unclamped_spec :
+  forall (s : span) (bits size_bytes bits_at size_bits : N),
+    span_okb s = true -> (sp_off s + bits <? two64) && (sp_off s + bits_at <? two64) && (size_bits + 8 <? two64) = true ->
+    (let k := (sp_off s + bits) / 8 in
+     let s' := subspan s bits in
+     sp_data s' = skipn (N.to_nat k) (sp_data s) /\ sp_off s' = (sp_off s + bits) mod 8 /\
+     sp_size s' = sp_size s - k /\ 8 * k + sp_off s' = sp_off s + bits /\
+     (forall p, bit (sp_data s') p = bit (sp_data s) (8 * k + p)) /\
+     sp_bits s' = sp_size s * 8 - (sp_off s + bits)) /\
+    (let s' := subspan_bytes s size_bytes in
+     sp_data s' = skipn (N.to_nat (sp_off s / 8)) (sp_data s) /\ sp_off s' = sp_off s mod 8 /\
+     sp_size s' = N.min size_bytes (sp_size s - sp_off s / 8)) /\
+    (let k := (sp_off s + bits_at) / 8 in
+     let o := (sp_off s + bits_at) mod 8 in
+     if (sp_size s <? k) || ((sp_size s - k) * 8 <? o + size_bits)
+     then subspan2 s bits_at size_bits = inr TooSmall
+     else subspan2 s bits_at size_bits = inl (mkspan (skipn (N.to_nat k) (sp_data s)) ((o + size_bits) / 8) o) /\
+          k + (o + size_bits) / 8 <= sp_size s).
+Proof. exact subspans_spec_b. Qed.
